@@ -60,6 +60,10 @@ func BaseGraph(variant int) *Graph {
 	c1 := g.node("C")
 	g.Root = q
 	g.Mut = g.node("Mutation")
+	v1, v2 := g.node("V"), g.node("V")
+	v1.F["vid"], v1.F["vm"], v2.F["vid"], v2.F["vm"] = "v1", "m1", "v2", "m2"
+	v1.F["id"], v2.F["id"] = "idv1", "idv2"
+	q.F["val"], q.F["vals"] = v1, L_(v2, v1)
 	g.Mut.F["a"] = a1
 	g.Mut.F["i"] = 42
 	scal := func(n *Node, tag string, k int) {
